@@ -69,8 +69,15 @@ def placement_table(repo, rep):
 
 def r1_placement(repo, rep):
   table = placement_table(repo, rep)
+  cls_ = repo.cls(search.MM)
+  n_y = sum(1 for fn_ in ('treatment_group_generator', 'control_group_generator') if cls_.methods.get(fn_) is not None
+            for x_ in walk_no_nested(cls_.methods[fn_].node) if isinstance(x_, (ast.Yield, ast.YieldFrom)))
+  n_seen = sum(len(c01._yields(cls_.methods[fn_])) for fn_ in ('treatment_group_generator', 'control_group_generator') if cls_.methods.get(fn_) is not None)
   for k, want in sorted(EXPECTED_PLACEMENT.items()):
     got = table.get(k)
+    if got != want and (not got or (got < want and n_seen < n_y)):
+      rep.undecided('R1/placement', 'class %s' % k, 'only %d of the %d yields of the generators are in a form whose value is followed (placements found: %s)' % (n_seen, n_y, sorted(got)), '')
+      continue
     rep.check(got == want, 'R1/placement', 'class %s can be placed in %s' % (k, sorted(want)), 'tbrmatchedmarkets.TBRMatchedMarkets.control_group_generator',
               'placement of class %s: %s' % (k, sorted(got)),
               'the generators place a geo of class %s in (treatment, control) combinations %s, but its eligibility row allows exactly %s: the enumerated space differs from the eligibility semantics'
